@@ -1,11 +1,52 @@
 """C07, schema-1.x half: all crate queries describe one well-formed forest."""
 from props.parts import _cratesv1
 
-LEAN_MODULES = []
-THEOREMS = []
-ASSUMPTIONS = []
+LEAN_MODULES = ["Properties.C07V1"]
+THEOREMS = ["EngineModel.Properties.C07V1." + t for t in [
+    "C07_invariant_after_every_history",
+    "C07_no_undefined_behaviour",
+    "C07_step_simulates_spec",
+    "C07_refines",
+    "C07_queries_agree_with_spec",
+    "C07_forest_wellformed",
+    "C07_children_descendants_roots_from_parent",
+    "C07_invalid_name_rejected_without_effect",
+    "C07_failed_call_changes_nothing",
+    "C07_cycle_reparent_rejected",
+    "C07_new_id_is_fresh",
+    "C07_live_crate_stays_live",
+    "C07_remove_kills_subtree",
+    "C07_queries_return_only_live_crates",
+    "C07_removed_never_returned_partial",
+    "C07_removed_never_returned_counterexample",
+    "C07_step_from_wellformed",
+    "C07_refines_from_wellformed",
+    "C07_queries_agree_on_wellformed",
+]]
+ASSUMPTIONS = [
+    "1.x: SqliteSemantics — hand translation of the statements of engine_crate_impl.cpp / engine_database_impl.cpp on "
+    "Crate / CrateParentList / CrateHierarchy / CrateTrackList (tables up to 1.7.1, views over List* with INSTEAD OF "
+    "triggers from 1.9.1), of rowid / MAX(id)+1 / AUTOINCREMENT id allocation and of sqlite_transaction roll-back into "
+    "list operations (lean/EngineModel/Api/CratesV1.lean); foreign_keys and recursive_triggers are OFF as in the "
+    "library; validated by call-result, observation and raw-table equality after every step of the explored and "
+    "generated histories on the eleven 1.x versions",
+    "1.x: crate names are byte strings without NUL (the title is bound as a C string)",
+]
 TRUSTED_EXTRA = []
-MANIFEST_TEXT = ""
+MANIFEST_TEXT = ("Schema 1.x: for every history of crate operations (create root / sub-crate, rename, re-parent to any "
+                 "crate or none, remove; removed handles, unknown ids and invalid names included) from the empty library, "
+                 "on every 1.x version: the invariant Inv (parent list functional / total / live, hierarchy = strict "
+                 "transitive closure, paths = names from the root) holds after every prefix, no call has undefined "
+                 "behaviour, the outcome class of every call is the one Spec.Forest allows and absForest commutes with "
+                 "it (C07_refines), and every structural query of the Model equals the query of Spec.Forest on the "
+                 "abstract forest; corollaries: invalid names rejected without effect, failing calls change nothing, "
+                 "cycle-creating re-parenting rejected, new ids fresh, live crates keep their ids, removed sub-trees are "
+                 "never returned along any continuation in which no creation reports the id again (_partial; the full "
+                 "'never again' is false of the 1.x code, which re-issues MAX(id)+1 ids: _counterexample proved, recorded "
+                 "finding v1-removed-crate-id-reissued); the step / history / query theorems also hold from ANY raw "
+                 "state that passes the executable WfRaw (a loaded library), not only from the empty one. "
+                 "Tied to the real library by breadth-first exploration of all distinct model states with <= 4 crate "
+                 "handles plus random deep histories, with a Spec.Forest oracle on the library's own answers.")
 
 
 def tie(ctx):
